@@ -23,6 +23,10 @@ pub struct Scenario {
     pub drop_server_early: bool,
     #[serde(default)]
     pub spurious: bool,
+    /// requests cannot be identified by their target: the k-th delivered request is message k of
+    /// connection 0 (single connection, single receiver)
+    #[serde(default)]
+    pub by_order: bool,
     /// virtual instants (ns) at which the controller reports the library thread count (C20)
     #[serde(default)]
     pub probes_ns: Vec<u64>,
